@@ -212,6 +212,19 @@ class Built:
                 kw["domain"] = self.expr(payload)
         if s.get("type"):
             return Option[{"int": int, "str": str, "object": object}[s["type"]]](s["key"], **kw)
+        via = s.get("via")
+        if via and via.startswith("ns-") and s["key"].count(".") == 1:
+            head, member = s["key"].split(".")
+            if via == "ns-auto":
+                body = {member: Option.auto(doc="declared with Option.auto", **kw)}
+            elif via == "ns-option":
+                body = {member: Option(member, **kw)}  # (a key relative to the namespace)
+            elif via == "ns-plain":
+                body = {member: kw["default"]}
+            else:
+                body = {"__annotations__": {member: object}}
+            ns = Option.namespace(head)(type(head, (), body))
+            return getattr(ns, member)
         return Option(s["key"], **kw)
 
     def _tmpl(self, s):
@@ -302,6 +315,11 @@ class Built:
 
     def _allopts(self, s):
         return AllOptions
+
+    def _user(self, s):
+        child = self.expr(s["spec"])
+        cls = _user_wrapper(s.get("depth", 1))
+        return cls(child)
 
     def _dc(self, s):
         from labrea import datasetclass
@@ -491,6 +509,43 @@ class Built:
             self.overload_ds[(did, tag)] = new
             self.dataset_ids[id(new)] = f"{did}/{tag}"
             self.caches.append((f"ds{did}/{tag}", new.cache))
+
+
+class _UserWrapper(labrea.types.Evaluatable):
+    """What a user's own Evaluatable typically looks like: holds another one and passes the four operations on."""
+
+    def __init__(self, inner):
+        self.inner = inner
+
+    def evaluate(self, options):
+        return self.inner.evaluate(options)
+
+    def validate(self, options):
+        return self.inner.validate(options)
+
+    def keys(self, options):
+        return self.inner.keys(options)
+
+    def explain(self, options=None):
+        return self.inner.explain(options)
+
+    def __repr__(self):
+        return f"{type(self).__name__}({self.inner!r})"
+
+
+class _UserWrapperChild(_UserWrapper):
+    """A subclass of the user's class that overrides two operations and inherits the others (no super() calls: a
+    cooperative super().evaluate() recurses for ever - DESIGN section 6, observations)."""
+
+    def evaluate(self, options):
+        return self.inner.evaluate(options)
+
+    def keys(self, options):
+        return set(self.inner.keys(options))
+
+
+def _user_wrapper(depth):
+    return _UserWrapperChild if depth > 1 else _UserWrapper
 
 
 def _callback_impl(log, pid, name, value):
